@@ -84,13 +84,48 @@ fn laws(a: &Value<'_>, b: &Value<'_>, c: &Value<'_>) {
     kani::cover!(has_nan(a) && !has_nan(b), "NaN vs number");
 }
 
+/// numeric leaf restricted to three representative variants (small, wide integer, float) for the triple laws
+fn sym_leaf3() -> Value<'static> {
+    let k: u8 = kani::any();
+    kani::assume(k < 3);
+    match k {
+        0 => Value::U8(kani::any()),
+        1 => Value::I64(kani::any()),
+        _ => Value::F64(kani::any()),
+    }
+}
+
+/// pairwise laws over every pair of numeric leaves (81 variant pairs, all payloads)
 #[kani::proof]
 #[kani::unwind(10)]
 #[kani::stub(alloc::fmt::format, no_format)]
-fn c08_leaf_laws() {
+fn c08_pair_laws() {
     let a = sym_leaf(true);
     let b = sym_leaf(true);
-    let c = sym_leaf(true);
+    laws(&a, &b, &b);
+    core::mem::forget((a, b));
+}
+
+/// triple laws (transitivity) over three floats, NaN and signed zeros included
+#[kani::proof]
+#[kani::unwind(10)]
+#[kani::stub(alloc::fmt::format, no_format)]
+fn c08_f64_triple_laws() {
+    let a = Value::F64(kani::any());
+    let b = Value::F64(kani::any());
+    let c = Value::F64(kani::any());
+    laws(&a, &b, &c);
+    core::mem::forget((a, b, c));
+}
+
+/// triple laws across variants (u8 / i64 / f64 in any combination)
+#[kani::proof]
+#[kani::unwind(10)]
+#[kani::stub(alloc::fmt::format, no_format)]
+fn c08_mixed_triple_laws() {
+    let a = sym_leaf3();
+    let b = sym_leaf3();
+    let c = sym_leaf3();
     laws(&a, &b, &c);
     core::mem::forget((a, b, c));
 }
@@ -113,7 +148,7 @@ fn c08_leaf_laws_nan_witness() {
 #[kani::unwind(10)]
 #[kani::stub(alloc::fmt::format, no_format)]
 fn c08_leaf_clone_signature() {
-    let a = sym_leaf(false);
+    let a = sym_leaf3();
     match a.try_clone() {
         Ok(b) => {
             assert!(a == b, "try_clone changed the value");
